@@ -858,7 +858,7 @@ class TermCanvas(Canvas):
                 x += 1
 
                 if x >= self.width and self.is_rotten_cursor:
-                    if y >= self.scrollregion_end:
+                    if y == self.scrollregion_end:
                         self.scroll()
                     else:
                         y += 1
